@@ -10,7 +10,8 @@ PURE = ["1", "-7", "true", "null", '"s"', "k0", "k0 + 1", "k0 * (2 - k0)", "-k0"
         'if k0 > 1 { 10 } else { 20 }', '"a{k0}b"', "(k0 + 2) << 3", "arr0[0]", "arr0[9]"]
 EFFECT = ["bump()", "bump() + 1", "[bump(), 2]", "Vec[1, bump()]", '"x{bump()}y"', "if bump() > 0 { 1 } else { 2 }",
           "(m0 = m0 + 1)", "-bump()", "bump() > 0 and true", "true or bump() > 0", "arr0[bump() % 3]",
-          "say(\"e\")", "k0 + (m0 = 5)", "fn(q) { return bump() }(1)"]
+          "say(\"e\")", "k0 + (m0 = 5)", "fn(q) { return bump() }(1)", "(arr0[1] = 9)", "(arr0[k0 - 3] = m0)", "[1, (arr0[2] = 8)]",
+          "arr0[(arr0[0] = 1)]"]
 
 
 def init(r):
